@@ -19,7 +19,7 @@ void h_sm2_decrypt(void)
 	CANARY("returned");
 }
 
-//@job name=sm2_all_zero props=C02,C06 enforce=all_zero loops=1
+//@job name=sm2_all_zero props=C02,C06,C20 enforce=all_zero loops=1
 void h_sm2_all_zero(void)
 {
 	RD_SETUP;
